@@ -17,7 +17,7 @@ LEVEL_TEXT = ("Every one of the 16 operation variants of both APIs is called wit
               "unbounded argument space: no proof of absence.")
 RULE = ("case = (operation kind, accepted arguments, device id, key, session id, timestamp, login-reply length), one "
         "connection per case; plus histories of 2..10 operations on one connection per API type. Non-trivial = a frame other than the login frame; distinct by (kind, frame length, signature bytes)."
-        ' Also: host zones other than UTC, names that are not NFC-stable or start with U+FEFF, and 32-byte names crafted so that their last four bytes equal the signature of the frame so far.')
+        ' Also: host zones other than UTC, names that are not NFC-stable or start with U+FEFF, and 32-byte names crafted so that their last four bytes equal the signature of the frame so far; slow-device: every operation x every step answered 6 s .. 25 h late while the wall clock keeps running with the loop clock (both harness-owned), followed by another operation - every byte string written meanwhile is checked.')
 ASSUMPTIONS = [
     "frame boundaries = lengths of the client's StreamWriter.write calls (harness-side tap), content from the socket",
     "login replies of 12..1024 bytes carrying the session id at offset 8 (the statement's precondition)",
@@ -68,6 +68,84 @@ async def run_case(rep, case, sub):
                             case, "fe f0 | LE16(len) | ... f0 fe at 38 | ... | double CRC",
                             {"frame_index": i, "len": len(f), "length_field": int.from_bytes(f[2:4], "little") if len(f) > 3 else None,
                              "errors": errs, "frame": f.hex()[:400]})
+
+
+async def run_slow(rep, case):
+    """One answer of the device comes seconds to hours late while the host's wall clock keeps running (the loop clock and
+    the wall clock advance together, both harness-owned).  Whatever the client writes meanwhile or afterwards - a repeated
+    request, the rest of the exchange, the next operation - must still be whole, correctly signed frames."""
+    import asyncio
+    import datetime as dt
+    import time_machine
+    from . import c03
+    dev = await env.device()
+    kind, a, slow = case["kind"], case["args"], case["slow"]
+    cl = ops.Client(dev, ops.api_type(kind), case["device_id"], f"{case['key']:02x}")
+    await cl.connect()
+    try:
+        with time_machine.travel(dt.datetime.fromtimestamp(case["ts"], dt.timezone.utc), tick=False) as tr:
+            now = [float(case["ts"])]
+
+            async def ticker():
+                # wall clock follows the loop clock: 1 s steps for the first half minute, then coarser
+                while True:
+                    step = 1.0 if now[0] - case["ts"] < 30 else max(1.0, slow["secs"] / 12)
+                    await asyncio.sleep(step)
+                    now[0] += step
+                    tr.move_to(now[0])
+            tick = asyncio.ensure_future(ticker())
+            try:
+                script = ops.good_script(kind, a, case["session"], salt=case.get("salt", 1))
+                script[slow["step"]]["sleep"] = slow["secs"]
+                cl.conn.script.extend(script)
+                status, res = await cl.call(kind, a, timeout=40.0 + 2 * slow["secs"])
+                if status != "ok":
+                    rep.label("gave-up-on-slow-device")
+                    await asyncio.sleep(slow["secs"] + 1)
+                    await cl.settle()
+                # the next operation on the same connection
+                nk = case["next"]
+                cl.conn.script.clear()
+                cl.conn.script.extend(ops.good_script(nk, c03.CANON_ARGS[nk], "5e55a002", salt=3))
+                await cl.call(nk, c03.CANON_ARGS[nk])
+            finally:
+                tick.cancel()
+                try:
+                    await tick
+                except BaseException:  # noqa
+                    pass
+        frames = list(cl.conn.frames)
+    finally:
+        await cl.close()
+    rep.tick("slow-device", key=case, nontrivial=True, sample=case, labels=(f"op={kind}", f"late@step{slow['step']}"))
+    for i, f in enumerate(frames):
+        errs = wire.structural_errors(f)
+        if errs:
+            raise Violation(f"C01/{'+'.join(errs)}/op={kind}/around-late-reply", case, "fe f0 | LE16(len) | ... f0 fe at 38 | ... | double CRC",
+                            {"frame_index": i, "of": len(frames), "len": len(f), "errors": errs, "frame": f.hex()[:400]})
+
+
+def body_slow(rep, case):
+    with net.virtual_time():
+        net.run(run_slow(rep, case))
+
+
+def cases_slow(tier):
+    from . import c03
+
+    def gen_cases():
+        out = []
+        n = 0
+        for kind in ops.KINDS:
+            same = ops.KINDS1 if ops.api_type(kind) == 1 else ops.KINDS2
+            for step in range(1 + len(ops.FRAMES[kind])):
+                for secs in ([6, 61, 3601] if tier != "thorough" else [2, 4, 6, 11, 31, 61, 301, 3601, 90_000]):
+                    n += 1
+                    out.append({"kind": kind, "args": c03.CANON_ARGS[kind], "device_id": f"{(n * 7919) % 0xFFFFFF:06x}", "key": n % 256,
+                                "session": bytes([0xA5, n % 256, n >> 8, 0x5A]).hex(), "ts": 1_700_000_000 + n * 977,
+                                "slow": {"step": step, "secs": secs}, "next": same[n % len(same)]})
+        return out
+    return gen_cases
 
 
 def make_body(sub):
@@ -173,6 +251,7 @@ def subchecks(tier):
         nn = n if not kind.startswith("breeze") else n // 2
         subs.append(Sub(f"op={kind}", make_body(f"op={kind}"), strategy=strat_for(kind), n=nn, shards=shards))
     subs.append(Sub("crafted-signature-tail", make_body("crafted-signature-tail"), cases=cases_crafted, shards=4, exhaustive=True))
+    subs.append(Sub("slow-device", body_slow, cases=cases_slow(tier), shards=4, exhaustive=True))
     subs.append(Sub("histories", lambda rep, case: net.run(run_history(rep, case, "histories")), strategy=strat_history,
                     n=20_000 if tier == "thorough" else 250, shards=16 if tier == "thorough" else 2))
     return subs
